@@ -316,7 +316,7 @@ def check_pred_ee(t: int, e: int, x: int, y: int) -> bool:
 
 def check_pred_flags(c: int, mt: bool) -> bool:
     """
-    pre: 0 <= c <= 4
+    pre: 0 <= c < len(pc.NAME_ROWS)
     post: _
     """
     f = pc.Features(3, c, 0, mt, "a1")
@@ -416,7 +416,7 @@ def describe():
                       "pipeline.py:SingleEndPipeline.process_reads, PairedEndPipeline.process_reads"],
         "bounds": {"option_sets": len(OPTION_SETS),
                    "read": "symbolic row numbers into fixed tables: text (length 0..3, every N count 0..length, N and n), header (none, CASAVA pass, CASAVA fail, ':Y:' in the id only, "
-                           "':Y:' at the end of the comment), expected errors (0, 1, 1.5, 2.5); paired-end sets use a selection of rows (pipeline_common.tables_for)",
+                           "':Y:' at the end of the comment, fail / pass followed by a further field ' rc', pass followed by a later field that contains ':Y:'), expected errors (0, 1, 1.5, 2.5); paired-end sets use a selection of rows (pipeline_common.tables_for)",
                    "thresholds": "-m/-M: symbolic ints -1..4 per mate injected into the real TooShort/TooLong objects (fixed 2 / 3 in the sets marked [fixed -m/-M]); --max-n 0, 0.5, 1, 2; "
                                  "--max-ee 1; --max-aer 0.5 as parsed by cutadapt (the tables contain values below, at and above each of them); the predicate conditions go through "
                                  "--max-n 0, 1/4, 1/3, 1/2, 2/3, 3/4, 1, 1.5, 2, 3, --max-ee 0..3 in steps of 0.5, --max-aer 1/4, 1/3, 1/2, 3/4, 5/6, 0.9",
@@ -424,7 +424,7 @@ def describe():
                    "too_many_n predicate": "symbolic read text of length <= 3 over {A,N,n}"},
         "outside_bounds": ["reads longer than 3", "thresholds of --max-n/--max-ee/--max-aer other than the listed values: CrossHair 0.0.110 does not finish with symbolic floats "
                            "(it explores an IEEE model besides the real one), so floats are concrete and all float arithmetic is the native one",
-                           "--pair-filter=first together with a length given for R2 only (C05)", "headers that are not CASAVA 1.8 headers beyond the five in the table",
+                           "--pair-filter=first together with a length given for R2 only (C05)", "headers other than the eight in the table",
                            "which demultiplexed file is the right one beyond 'the adapter found in R1 / in both mates' (C15)"],
         "stubs": ["RecordingOutfiles for files.OutputFiles (signatures compared at import)", "LazyRec for dnaio.SequenceRecord (e2_common.Rec contract)",
                   "predicates.expected_errors returns the table value attached to the read (contract: non-negative real, 0 for an empty read; proved for the kernel by C14)",
